@@ -428,8 +428,9 @@ class Reader:
             name = self.last_name
             assert self.zone_origin is not None
             if not name.is_subdomain(self.zone_origin):
-                self._eat_line()
-                return
+                # Ignore this out-of-zone owner only; the rest of the range
+                # may be in the zone.
+                continue
             if self.relativize:
                 name = name.relativize(self.zone_origin)
 
